@@ -37,7 +37,69 @@ def s1(ctx):
                 r = ctx.run(body.name)
                 c = r.calls.get(cbb)
                 return True, (c['args'][0] if c and c['args'] else TOP)
+        # the dispatch may be spelled through a helper (`match Execution::from(params) { Sequential => .., Parallel(p) => .. }`,
+        # `if !is_parallel(params)`): decided by re-executing the body with every is_sequential() answering true - the call must
+        # then be unreachable
+        tested = []
+        tmpl = ctx.opa.run(IS_SEQ).ret if IS_SEQ in F.bodies else None      # what is_sequential(self) is, once inlined
+
+        def unify(t, d, env):
+            if t == ('param', 'self'):
+                if 'self' in env and env['self'] != d:
+                    return False
+                env['self'] = d
+                return True
+            if t is None or d is None or t[0] != d[0] or len(t) != len(d):
+                return t == d
+            for a, b_ in zip(t[1:], d[1:]):
+                if isinstance(a, tuple) and isinstance(b_, tuple) and a and b_ and isinstance(a[0], str) and isinstance(b_[0], str):
+                    if not unify(a, b_, env):
+                        return False
+                elif isinstance(a, tuple) and isinstance(b_, tuple):
+                    if len(a) != len(b_) or not all(unify(x, y, env) if isinstance(x, tuple) else x == y for x, y in zip(a, b_)):
+                        return False
+                elif a != b_:
+                    return False
+            return True
+
+        def atoms(d):
+            if d is not None and d[0] == 'call' and strip_generics(d[1]) == IS_SEQ and d[2]:
+                tested.append(d[2][0])
+                return True
+            if tmpl is not None and d is not None:
+                env = {}
+                if unify(tmpl, d, env) and 'self' in env:
+                    tested.append(env['self'])
+                    return True
+            return None
+        rr = ctx.opa.run(body.name, seeds={'atoms': atoms, 'key': ('S1-seq', body.name)})
+        if tested and bb not in rr.visited and bb in ctx.run(body.name).visited:
+            return True, tested[0]
         return False, None
+
+    def closure_invocations(cb):
+        """[(helper body, bb of the Fn::call)] for a closure that its creator passes as an argument to crate functions which call that
+        parameter; [] when the closure goes anywhere else"""
+        from .opa import FN_CALLS
+        creator = F.bodies.get(cb.parent)
+        if creator is None:
+            return []
+        r = ctx.run(creator.name)
+        outl = []
+        for cbb, c in r.call_sites():
+            for i, a in enumerate(c['args']):
+                if a is not None and a[0] == 'closure' and a[1] == cb.name:
+                    callee = c['t'].get('resolved') or ''
+                    hb = F.bodies.get(callee)
+                    if hb is None or i >= len(hb.arg_locals()):
+                        return []
+                    pname = hb.local_name(hb.arg_locals()[i]) or '_%d' % hb.arg_locals()[i]
+                    hr = ctx.run(hb.name)
+                    sites = [hbb for hbb, hc in hr.call_sites() if hc['decl'] in FN_CALLS and hc['args'] and hc['args'][0] == ('param', pname)]
+                    if not sites:
+                        return []
+                    outl.extend((hb, hbb) for hbb in sites)
+        return outl
 
     def site_params_term(body, bb):
         r = ctx.run(body.name)
@@ -58,6 +120,12 @@ def s1(ctx):
             return True, 'guarded in %s' % key_of(body), trail
         if depth >= 3:
             return False, 'no is_sequential guard within 3 callers', trail
+        if body.is_closure():
+            # a closure handed to a crate helper that invokes it (`collect_x_with(par, |..| kernel(params, ..))`): the invocation
+            # inside the helper must be guarded there
+            inv0 = closure_invocations(body)
+            if inv0 and all(local_guard(hb, ibb)[0] for (hb, ibb) in inv0):
+                return True, 'closure invoked only behind the guard of %s' % ', '.join(sorted({key_of(hb) for hb, _ in inv0})), trail
         # the callee must pass its own Params parameter on unchanged
         if passed is not None and passed[0] != 'param':
             return False, 'unguarded call passes a Params that is not the function\'s own parameter (%s)' % t_str(passed), trail
@@ -65,6 +133,13 @@ def s1(ctx):
         site_kind = ('direct', 'cha')
         if body.is_closure():
             site_kind = ('closure',)
+            # a closure handed to a crate helper that invokes it (`collect_x_with(par, |..| kernel(params, ..))`): the invocation
+            # inside the helper must be guarded there
+            inv = closure_invocations(body)
+            if inv:
+                bad_inv = [(hb, ibb) for (hb, ibb) in inv if not local_guard(hb, ibb)[0]]
+                if not bad_inv:
+                    return True, 'closure invoked only behind the guard of %s' % ', '.join(sorted({key_of(hb) for hb, _ in inv})), trail
         callers = ctx.cg.callers(host.name, kinds=site_kind)
         if not callers:
             return False, 'unguarded and no caller found that could justify it', trail
@@ -903,7 +978,7 @@ def c10_lazyseq(ctx):
             out.fail(key + '/exhaustive', '%s uses the exhaustive iterator method %s: elements beyond the first match are evaluated' % (key_of(b), bad[0]), bad[2].where(bad[1]))
         if not sc:
             out.fail(key + '/terminal', '%s does not end in a short-circuit iterator terminal (find/find_map/next): %s' % (key_of(b), t_str(r.ret)[:200]), b.where())
-    out.floor('seq_find_kernels', len(ks), 3 if not ctx.fixture else 0)
+    out.floor('seq_find_kernels', len(ks), 1 if not ctx.fixture else 0)
     return out
 
 
